@@ -420,8 +420,11 @@ class RaftNode(Entity):
             )
             return [resp]
 
-        if term >= self._current_term:
-            self._step_down(term)
+        # Yield to the leader of this term; only a *newer* term releases the vote
+        # already cast (forgetting it would allow a second vote in the same term).
+        voted_for = self._voted_for if term == self._current_term else None
+        self._step_down(term)
+        self._voted_for = voted_for
         self._leader = leader_id
         self._current_term = term
 
